@@ -87,3 +87,37 @@ Example C10_empty_nonvacuous :
               t_cfg := [(tEx, VDict None (Some (FFn 5)))]; t_dflt := None |} in
   (forall s, at_slot S (keys_of tAnn tEx tOr) Ser s = None) /\ kernel Ser S tAnn tEx tOr = Ok KNone.
 Proof. cbv zeta. split; [apply resolve_none_iff|]; reflexivity. Qed.
+
+(* ---- which keys reach the resolution (Registry.get, translated) ----
+   first_handler = registry_prepare (translated Registry.get up to the handler loop) followed by the first handler.
+   For a field declared with type t on a spec that carries annotated type a:
+     t Annotated  => alias key = rt t (the alias *after* substituting the field's type parameters),
+                     exact key = rt (org t), origin key = org (rt (org t));
+     otherwise    => alias key = a (whatever the spec already carries), exact = rt t, origin = org (rt t). *)
+Theorem C10_keys : forall d S rt org isann t o a e,
+  first_handler d S rt org isann (mk_spec t o a) e =
+  match keys_after rt org isann t a with
+  | (a', t', o') => Ok (emit d (resolve S (keys_of a' t' o') d) e)
+  end.
+Proof. exact c10_keys. Qed.
+Print Assumptions C10_keys.
+
+(* non-vacuity: x: Annotated[T, "m"] in Box[T] specialised with T := date; a registration for
+   Annotated[date, "m"] (Config.serialization_strategy) beats one for date (call dialect) *)
+Definition tyT := KTuple [KStr "TypeVar"; KInt 0].
+Definition tyDate := KObj 12.
+Definition tyAnn (t: kv) := KTuple [KStr "Annotated"; t; KStr "m"].
+Definition rt_ex (v: kv) : kv :=
+  match v with
+  | KTuple [KStr "Annotated"; KTuple [KStr "TypeVar"; _]; m] => KTuple [KStr "Annotated"; tyDate; m]
+  | KTuple [KStr "TypeVar"; _] => tyDate
+  | _ => v end.
+Definition org_ex (v: kv) : kv := match v with KTuple [KStr "Annotated"; t; _] => t | _ => v end.
+Definition isann_ex (v: kv) : bool := match v with KTuple [KStr "Annotated"; _; _] => true | _ => false end.
+Example C10_keys_generic :
+  let S := {| f_ser := None; f_de := None; f_strat := None; t_call := Some [(tyDate, both 4)]; t_cfgd := None;
+              t_cfg := [(tyAnn tyDate, both 9)]; t_dflt := None |} in
+  keys_after rt_ex org_ex isann_ex (tyAnn tyT) KNone = (tyAnn tyDate, tyDate, tyDate) /\
+  first_handler Ser S rt_ex org_ex isann_ex (mk_spec (tyAnn tyT) (tyAnn tyT) KNone) (KStr "value")
+    = Ok (k_call_expr (KObj 10) (KStr "value")).
+Proof. cbv zeta. split; reflexivity. Qed.
